@@ -76,7 +76,9 @@ class Translator(object):
             f = n.func
             args = [self.ev(a) for a in n.args]
             if isinstance(f, ast.Attribute) and isinstance(f.value, ast.Name) and f.value.id == 'math':
-                if f.attr == 'exp': return sp.exp(args[0])
+                if f.attr == 'exp':
+                    _LAST_EXP_ARGS.append(args[0])      # (float range: the arguments of math.exp as written, before any algebra merges exponentials)
+                    return sp.exp(args[0])
                 if f.attr == 'log': return sp.log(args[0])
                 if f.attr == 'sqrt': return sp.sqrt(args[0])
                 raise Unsupported('math.%s' % f.attr)
@@ -110,6 +112,7 @@ def translate_method(module, cls, meth, args, depth=0):
     return out
 
 _LAST_DEFINED_IF = []
+_LAST_EXP_ARGS = []
 
 def _cond_term(t, n):
     """condition of an `if` in a formula body -> sympy relational"""
@@ -466,3 +469,16 @@ def definedness_at_origin(relpath, cls, meth, params, extra_subs=None):
             if extra_subs: d0 = d0.subs(extra_subs)
             if d0 == 0: bad.append('division by %s' % (c,))
     return bad
+
+
+def interval_sup(expr, box, default=(0.3, 3.0)):
+    """an upper bound of a sympy term over a box of parameter ranges, by interval arithmetic (mpmath.iv; sound up to the rounding mpmath.iv
+    itself accounts for). Returns None when the term cannot be evaluated on the box (division by an interval containing zero ...)."""
+    from mpmath import iv
+    syms = sorted(expr.free_symbols, key=str)
+    f = sp.lambdify(syms, expr, modules=[{'exp': iv.exp, 'log': iv.log, 'sqrt': iv.sqrt, 'mpf': iv.mpf, 'pi': iv.pi}, 'mpmath'])      # (constants as intervals too)
+    try:
+        v = f(*[iv.mpf(list(box.get(str(x), default))) for x in syms])
+        return float(iv.mpf(v).b)
+    except Exception:
+        return None
